@@ -211,13 +211,308 @@ def action_layer(run: Run, progress: bool = False) -> None:
     run_items(run, CASE_HEADER, items, per_condition_timeout=60 if run.tier == "quick" else 300, progress=progress)
 
 
+# ====================================================================================================
+# parser level: layout sites and keyword case on canonical filter shapes (Engine B; text concrete per path)
+# ====================================================================================================
+from odata_query import ast as _ast                                   # noqa: E402
+from odata_query.grammar import ODataLexer as _Lexer, ODataParser as _Parser   # noqa: E402
+
+RWS_RUNS = (" ", "  ", "\t", "\n", " \t\n")
+CASES = ("lower", "UPPER", "Title")
+
+
+def O() -> tuple:              # optional white-space site (BWS of the ABNF): "" or " "
+    return ("O",)
+
+
+def R() -> tuple:              # required white-space site (RWS): one of RWS_RUNS
+    return ("R",)
+
+
+def K(word: str) -> tuple:     # keyword whose letter case may vary
+    return ("K", word)
+
+
+def _op(word: str) -> list:
+    return [R(), K(word), R()]
+
+
+def _templates() -> List[dict]:
+    t: List[dict] = []
+
+    def add(name: str, parts: list) -> None:
+        t.append({"name": name, "parts": parts})
+
+    for op in ("add", "sub", "mul", "div", "mod"):
+        add(f"arith-{op}", ["a"] + _op(op) + ["1"])
+    for op in ("eq", "ne", "lt", "le", "gt", "ge"):
+        add(f"cmp-{op}", ["a"] + _op(op) + ["'x'"])
+    for op in ("and", "or"):
+        add(f"bool-{op}", ["a"] + _op("eq") + ["1"] + _op(op) + ["b"] + _op("ne") + ["2"])
+    add("not", [K("not"), R(), "a"])
+    add("not-paren", [K("not"), R(), "(", O(), "a"] + _op("eq") + ["1", O(), ")"])
+    add("neg", ["-", O(), "a"])
+    add("neg-paren", ["-", O(), "(", O(), "a"] + _op("add") + ["1", O(), ")"])
+    add("paren-mul", ["(", O(), "a"] + _op("add") + ["1", O(), ")"] + _op("mul") + ["2"])
+    add("in-list", ["a"] + _op("in") + ["(", O(), "1", O(), ",", O(), "2", O(), ",", O(), "3", O(), ")"])
+    add("in-single-list", ["a"] + _op("in") + ["(", O(), "1", O(), ",", O(), ")"])
+    add("list-of-lists", ["(", O(), "(", O(), "1", O(), ",", O(), ")", O(), ",", O(), "a", O(), ")"])
+    add("call-0", ["now(", O(), ")"])
+    add("call-1", ["length(", O(), "a", O(), ")"])
+    add("call-2", ["concat(", O(), "a", O(), ",", O(), "'b'", O(), ")"])
+    add("call-3", ["substring(", O(), "a", O(), ",", O(), "1", O(), ",", O(), "2", O(), ")"])
+    add("call-geo", ["geo.distance(", O(), "p", O(), ",", O(), "geography'SRID=0;Point(1 2)'", O(), ")"] + _op("lt") + ["5"])
+    add("call-nested", ["tolower(", O(), "trim(", O(), "a", O(), ")", O(), ")"] + _op("eq") + ["'x'"])
+    add("named-1", ["ns.f(", O(), "p=1", O(), ")"])
+    add("named-3", ["ns.f(", O(), "p=1", O(), ",", O(), "q='s'", O(), ",", O(), "r=a", O(), ")"])
+    add("any-empty", ["a/", K("any"), "(", O(), ")"])
+    add("any-lambda", ["a/", K("any"), "(", O(), "x", O(), ":", O(), "x/k"] + _op("eq") + ["1", O(), ")"])
+    add("all-lambda", ["a/b/", K("all"), "(", O(), "x", O(), ":", O(), K("not"), R(), "x/k"] + _op("in") + ["(1,2)", O(), ")"])
+    add("lit-true", ["a"] + _op("eq") + [K("true")])
+    add("lit-false", [K("false")] + _op("ne") + ["a"])
+    add("lit-null", ["a"] + _op("eq") + [K("null")])
+    add("lit-duration", ["a"] + _op("add") + [K("duration"), "'", K("p"), "1", K("d"), K("t"), "2", K("h"), "'"])
+    add("lit-datetime", ["a"] + _op("gt") + ["2020-02-29", K("t"), "10:00:00", K("z")])
+    add("lit-exponent", ["a"] + _op("lt") + ["1.5", K("e"), "3"])
+    add("lit-guid", ["a"] + _op("eq") + [K("abcdefab"), "-", K("cdef"), "-1234-5678-", K("abcdefabcdef")])
+    add("lit-geography", ["geo.length(", O(), K("geography"), "'SRID=0;LineString(1 2,3 4)'", O(), ")"] + _op("gt") + ["1"])
+    return t
+
+
+TEMPLATES: List[dict] = _templates()
+CANON: List[tuple] = []
+
+
+def _case(word: str, c: int) -> str:
+    return word.lower() if c == 0 else (word.upper() if c == 1 else word[:1].upper() + word[1:].lower())
+
+
+def _run(r: int) -> str:
+    """explicit branching: indexing a tuple with a symbolic int would give CrossHair a symbolic string, and the text must be
+    concrete on every path (its regex engine cannot run the SLY master pattern)"""
+    for i in range(len(RWS_RUNS)):
+        if r == i:
+            return RWS_RUNS[i]
+    return RWS_RUNS[0]
+
+
+def lay_out(ti: int, opts: tuple, rws: tuple, kws: tuple) -> str:
+    out = []
+    io = ir = ik = 0
+    for part in TEMPLATES[ti]["parts"]:
+        if isinstance(part, str):
+            out.append(part)
+        elif part[0] == "O":
+            out.append(" " if opts[io] else "")
+            io += 1
+        elif part[0] == "R":
+            out.append(_run(rws[ir]))
+            ir += 1
+        else:
+            out.append(_case(part[1], kws[ik]))
+            ik += 1
+    return "".join(out)
+
+
+def sites(ti: int) -> tuple:
+    parts = TEMPLATES[ti]["parts"]
+    return (sum(1 for p_ in parts if not isinstance(p_, str) and p_[0] == "O"),
+            sum(1 for p_ in parts if not isinstance(p_, str) and p_[0] == "R"),
+            sum(1 for p_ in parts if not isinstance(p_, str) and p_[0] == "K"))
+
+
+try:
+    from crosshair.core import deep_realize as _realize
+except Exception:  # pragma: no cover - CrossHair is part of the overlay venv
+    def _realize(x):
+        return x
+
+
+def _value_key(v) -> object:
+    """plain-data description of a literal's Python value (no str()/isoformat(): CrossHair's datetime model cannot format
+    a datetime that carries a dateutil tzinfo)"""
+    import datetime as dt
+    import uuid
+    if isinstance(v, dt.datetime):
+        off = v.utcoffset()
+        return ["datetime", v.year, v.month, v.day, v.hour, v.minute, v.second, v.microsecond,
+                None if off is None else off.days * 86400 + off.seconds]
+    if isinstance(v, dt.date):
+        return ["date", v.year, v.month, v.day]
+    if isinstance(v, dt.time):
+        return ["time", v.hour, v.minute, v.second, v.microsecond]
+    if isinstance(v, dt.timedelta):
+        return ["timedelta", v.days, v.seconds, v.microseconds]
+    if isinstance(v, float):
+        return ["float", v.hex()]
+    if isinstance(v, uuid.UUID):
+        return ["uuid", v.int]
+    if isinstance(v, (bool, int, str)) or v is None:
+        return [type(v).__name__, v]
+    return ["?", type(v).__name__]
+
+
+def meaning(node) -> object:
+    """decoded AST with literal *values* instead of spellings (TRUE and true, T and t, e and E mean the same)"""
+    if node is None:
+        return None
+    if isinstance(node, list):
+        return ["list"] + [meaning(n) for n in node]
+    if isinstance(node, _ast.List):
+        return ("List", ["items"] + [meaning(n) for n in node.val])
+    if isinstance(node, _ast.Geography):
+        return ("Geography", node.val)
+    if isinstance(node, _ast.Null):
+        return ("Null",)
+    if isinstance(node, _ast._Literal):
+        # the lexeme comes out of the regex engine as a CrossHair string proxy; C-implemented parsers (dateutil, datetime)
+        # reject proxies with TypeError, so the literal is rebuilt on the realised text before its value is taken
+        v = type(node)(_realize(node.val)).py_val
+        return (type(node).__name__, type(v).__name__, _value_key(v))
+    if isinstance(node, _ast.Identifier):
+        return ("Identifier", node.name, ["ns"] + list(node.namespace))
+    if isinstance(node, _ast.Attribute):
+        return ("Attribute", meaning(node.owner), node.attr)
+    if isinstance(node, (_ast.BinOp, _ast.BoolOp)):
+        return (type(node).__name__, type(node.op).__name__, meaning(node.left), meaning(node.right))
+    if isinstance(node, _ast.Compare):
+        return ("Compare", type(node.comparator).__name__, meaning(node.left), meaning(node.right))
+    if isinstance(node, _ast.UnaryOp):
+        return ("UnaryOp", type(node.op).__name__, meaning(node.operand))
+    if isinstance(node, _ast.Call):
+        return ("Call", meaning(node.func), ["args"] + [meaning(a) for a in node.args])
+    if isinstance(node, _ast.NamedParam):
+        return ("NamedParam", meaning(node.name), meaning(node.param))
+    if isinstance(node, _ast.Lambda):
+        return ("Lambda", meaning(node.identifier), meaning(node.expression))
+    if isinstance(node, _ast.CollectionLambda):
+        return ("CollectionLambda", meaning(node.owner), type(node.operator).__name__, meaning(node.lambda_))
+    return ("?", type(node).__name__)
+
+
+def _parse_meaning(text: str) -> tuple:
+    try:
+        return ("node", meaning(_Parser().parse(_Lexer().tokenize(text))))
+    except Exception as e:  # noqa: BLE001 - the class name is the outcome
+        return ("exc", type(e).__name__)
+
+
+def _same(a, b) -> bool:
+    if isinstance(a, str) or isinstance(b, str):
+        return isinstance(a, str) and isinstance(b, str) and _v.same_str(a, b)
+    if isinstance(a, (tuple, list)):
+        if type(a) is not type(b) or len(a) != len(b):
+            return False
+        for x, y in zip(a, b):
+            if not _same(x, y):
+                return False
+        return True
+    return a == b
+
+
+def canon(ti: int) -> tuple:
+    no, nr, nk = sites(ti)
+    return _parse_meaning(lay_out(ti, (0,) * no, (0,) * nr, (0,) * nk))
+
+
+def layout(ti: int, opts: tuple, rws: tuple, kws: tuple) -> bool:
+    want = CANON[ti]
+    return want[0] == "node" and _same(want, _parse_meaning(lay_out(ti, opts, rws, kws)))
+
+
+def _precompute_canon() -> None:
+    CANON[:] = [canon(i) for i in range(len(TEMPLATES))]
+
+
+_precompute_canon()
+LAYOUT_HEADER = "from verif.props.c19 import layout  # noqa\n"
+
+
+def layout_items(tier: str) -> List[Item]:
+    """per template four conditions: (opt) every optional-white-space site independently; (rws) every required run independently
+    (quick: at most 2 independent sites, further sites follow the last one); (case) every keyword's case independently (quick: at most 3);
+    (mixed) all optional sites together x one run for all required sites x one case for all keywords."""
+    items: List[Item] = []
+    cap_r, cap_k, cap_o = (2, 3, 5) if tier == "quick" else (4, 5, 8)
+    for ti, tpl in enumerate(TEMPLATES):
+        no, nr, nk = sites(ti)
+        zo, zr, zk = "(" + "0, " * no + ")", "(" + "0, " * nr + ")", "(" + "0, " * nk + ")"
+        nm = tpl["name"].replace("-", "_")
+        canon_text = lay_out(ti, (0,) * no, (0,) * nr, (0,) * nk)
+        if no:
+            k = min(no, cap_o)
+            params = ", ".join(f"o{i}: bool" for i in range(k))
+            tup = "(" + "".join(f"o{min(i, k - 1)}, " for i in range(no)) + ")"
+            items.append(Item(f"lay_opt_{nm}", params, "True", f"layout({ti}, {tup}, {zr}, {zk})", family="parser-layout:optional-ws",
+                              describe=f"{canon_text!r}: {no} optional white-space sites, each independently '' or ' '"))
+        if nr:
+            k = min(nr, cap_r)
+            params = ", ".join(f"r{i}: int" for i in range(k))
+            pre = " and ".join(f"0 <= r{i} < {len(RWS_RUNS)}" for i in range(k))
+            tup = "(" + "".join(f"r{min(i, k - 1)}, " for i in range(nr)) + ")"
+            items.append(Item(f"lay_rws_{nm}", params, pre, f"layout({ti}, {zo}, {tup}, {zk})", family="parser-layout:required-ws",
+                              describe=f"{canon_text!r}: {nr} required white-space runs from {RWS_RUNS!r} ({k} independent)"))
+        if nk:
+            k = min(nk, cap_k)
+            params = ", ".join(f"k{i}: int" for i in range(k))
+            pre = " and ".join(f"0 <= k{i} < 3" for i in range(k))
+            tup = "(" + "".join(f"k{min(i, k - 1)}, " for i in range(nk)) + ")"
+            items.append(Item(f"lay_case_{nm}", params, pre, f"layout({ti}, {zo}, {zr}, {tup})", family="parser-layout:keyword-case",
+                              describe=f"{canon_text!r}: {nk} keywords, each lower / UPPER / Title ({k} independent)"))
+        if (no > 0) + (nr > 0) + (nk > 0) >= 2 and (tier != "quick" or no > 0 or nk > 1):
+            tup_o = "(" + "o, " * no + ")"
+            tup_r = "(" + "r, " * nr + ")"
+            tup_k = "(" + "k, " * nk + ")"
+            items.append(Item(f"lay_mixed_{nm}", "o: bool, r: int, k: int", f"0 <= r < {len(RWS_RUNS)} and 0 <= k < 3",
+                              f"layout({ti}, {tup_o}, {tup_r}, {tup_k})", family="parser-layout:mixed",
+                              describe=f"{canon_text!r}: all optional sites on/off x one run for all required sites x one case for all keywords"))
+    return items
+
+
+def parser_layer(run: Run, progress: bool = False) -> None:
+    """Adds the parser-level layout obligations of C19 to `run`."""
+    items = layout_items(run.tier)
+    run.encode("odata_query.grammar.ODataLexer.tokenize + ODataParser.parse on laid-out texts (BWS / RWS productions, keyword tokens)",
+               "py_val of every literal class (value comparison where spellings legitimately differ)")
+    run.bounds["parser_layout"] = {"templates": [lay_out(i, (0,) * sites(i)[0], (0,) * sites(i)[1], (0,) * sites(i)[2]) for i in range(len(TEMPLATES))],
+                                   "optional_site": ["", " "], "required_runs": list(RWS_RUNS), "keyword_case": list(CASES)}
+    bad = [TEMPLATES[i]["name"] for i, c in enumerate(CANON) if c[0] != "node"]
+    for nm in bad:
+        run.harness_error(f"parser-layout:canonical:{nm}", "parser-layout", "the canonical text of this template does not parse")
+    _v.reachability(run, LAYOUT_HEADER, items)
+
+    def what(it: Item, args: tuple, outcome_: str) -> str:
+        return f"{it.describe}: choices {args!r} -> {_explain(it, args)}"
+
+    run_items(run, LAYOUT_HEADER, items, per_condition_timeout=90 if run.tier == "quick" else 400, progress=progress, what=what)
+
+
+def _explain(it: Item, args: tuple) -> str:
+    """the laid-out text of a counterexample and what the real parser does with it (for the violation message)"""
+    try:
+        ti = int(it.call[len("layout("):].split(",")[0])
+        env = {}
+        names = [p_.split(":")[0].strip() for p_ in it.params.split(",")]
+        env.update(dict(zip(names, args)))
+        tuples = eval("[" + it.call[it.call.index(",") + 1:-1] + "]", {}, env)  # noqa: S307 - our own tuple literals
+        text = lay_out(ti, *tuples)
+        return f"text {text!r} parses to {_parse_meaning(text)!r}; canonical {lay_out(ti, (0,) * len(tuples[0]), (0,) * len(tuples[1]), (0,) * len(tuples[2]))!r} parses to {CANON[ti]!r}"
+    except Exception as e:  # noqa: BLE001
+        return f"(could not render the witness: {e!r})"
+
+
+def _engine_b(run: Run, progress: bool) -> None:
+    action_layer(run, progress)
+    parser_layer(run, progress)
+
+
 def main() -> int:
     run = Run(PID, "model_checking")
     progress = bool(os.environ.get("VERIF_PROGRESS"))
-    sub = _v.SubRun(run, lambda r: action_layer(r, progress))
+    sub = _v.SubRun(run, lambda r: _engine_b(r, progress))
     sess = lexer_layer(run, progress=progress)
     sub.join()
-    run.assumptions.append("this run covers the lexer and token-action layers of C19 only (parser layouts and backends are separate layers)")
+    run.assumptions.append("this run covers the lexer, token-action and parser-layout layers of C19 (backends are a separate layer)")
     rx.attach_results(run)
     code = run.finish()
     return 2 if sess is None else code
